@@ -172,7 +172,10 @@ class BaseCircuitRunner(ABC, CircuitRunner):
                 f"{len(circuits_batch)}, length of n_samples: "
                 f"{len(samples_per_circuit)}."
             )
-        if any(n <= 0 for n in samples_per_circuit):
+        # A scalar count is checked as such: broadcasting it over an empty batch loses it.
+        if (isinstance(n_samples, int) and n_samples <= 0) or any(
+            n <= 0 for n in samples_per_circuit
+        ):
             raise ValueError(
                 f"All numbers of samples have to be positive. Got: {n_samples}"
             )
